@@ -14,7 +14,7 @@ use std::sync::{Arc, Mutex};
 
 #[derive(Clone, Debug)]
 pub enum Op {
-    Dial { via_beh: bool, cond: u8, peer: Option<usize>, addrs: Vec<Multiaddr>, extend: bool, beh_addrs: Vec<Multiaddr>, deny: bool, refuse: Vec<Multiaddr> },
+    Dial { via_beh: bool, cond: u8, peer: Option<usize>, addrs: Vec<Multiaddr>, extend: bool, beh_addrs: Vec<Multiaddr>, deny: bool, refuse: Vec<Multiaddr>, ov: bool },
     Resolve { k: usize, peer: usize, deny: bool },
     Fail { k: usize },
     Incoming { deny: bool },
@@ -80,8 +80,8 @@ fn parse_list(tok: &str) -> Vec<Multiaddr> {
 impl Op {
     pub fn render(&self) -> String {
         match self {
-            Op::Dial { via_beh, cond, peer, addrs, extend, beh_addrs, deny, refuse } => format!(
-                "dial {} {} {} {} {} {} {} {}",
+            Op::Dial { via_beh, cond, peer, addrs, extend, beh_addrs, deny, refuse, ov } => format!(
+                "dial {} {} {} {} {} {} {} {} ov={}",
                 if *via_beh { "beh" } else { "api" },
                 cond_name(*cond),
                 peer.map(|p| p.to_string()).unwrap_or("none".into()),
@@ -89,7 +89,8 @@ impl Op {
                 *extend as u8,
                 maddr_list_tok(beh_addrs),
                 *deny as u8,
-                maddr_list_tok(refuse)
+                maddr_list_tok(refuse),
+                *ov as u8
             ),
             Op::Resolve { k, peer, deny } => format!("resolve {k} {peer} {}", *deny as u8),
             Op::Fail { k } => format!("fail {k}"),
@@ -115,6 +116,7 @@ impl Op {
                 beh_addrs: parse_list(&t[6]),
                 deny: t[7] == "1",
                 refuse: parse_list(&t[8]),
+                ov: t.iter().any(|x| x == "ov=1"),
             },
             "resolve" => Op::Resolve { k: n(1), peer: n(2), deny: t[3] == "1" },
             "fail" => Op::Fail { k: n(1) },
@@ -271,7 +273,7 @@ where
         let mut res = "res=-".to_string();
         let mut new_mux = None;
         match op {
-            Op::Dial { via_beh, cond, peer, addrs, extend, beh_addrs, deny, refuse } => {
+            Op::Dial { via_beh, cond, peer, addrs, extend, beh_addrs, deny, refuse, ov } => {
                 {
                     let mut s = self.script.lock().unwrap();
                     s.deny_pending_out = *deny;
@@ -284,16 +286,27 @@ where
                     2 => PeerCondition::NotDialing,
                     _ => PeerCondition::DisconnectedAndNotDialing,
                 };
+                // `ov`: `DialOpts::override_role()` (hole punching: dial as the listener of the upgrade)
                 let opts: DialOpts = match peer {
                     Some(p) => {
-                        let b = DialOpts::peer_id(self.peers[*p]).condition(pc).addresses(addrs.clone());
+                        let mut b = DialOpts::peer_id(self.peers[*p]).condition(pc).addresses(addrs.clone());
+                        if *ov {
+                            b = b.override_role();
+                        }
                         if *extend {
                             b.extend_addresses_through_behaviour().build()
                         } else {
                             b.build()
                         }
                     }
-                    None => DialOpts::unknown_peer_id().address(addrs.first().cloned().unwrap_or_else(Multiaddr::empty)).build(),
+                    None => {
+                        let b = DialOpts::unknown_peer_id().address(addrs.first().cloned().unwrap_or_else(Multiaddr::empty));
+                        if *ov {
+                            b.override_role().build()
+                        } else {
+                            b.build()
+                        }
+                    }
                 };
                 let id = self.sim.world.lock().unwrap().conn(opts.connection_id());
                 if *via_beh {
